@@ -202,13 +202,19 @@ def handleStr (d : DState) (t : List String) : DState × String :=
     | some a => ({ d with str := a }, "ok;" ++ dumpS a)
     | none => (d, "err")
   | ["set", i, s] =>
-    match setitemString d.str i.toNat! s with
-    | some a => ({ d with str := a }, "ok;" ++ dumpS a)
-    | none => (d, "err;" ++ dumpS d.str)
+    match canonicalIndex d.str.idx.length (parseInt i) with       -- setitem_string_scalar: extract_slice_indices
+    | .error _ => (d, "err;" ++ dumpS d.str)
+    | .ok k =>
+      match setitemString d.str k s with
+      | some a => ({ d with str := a }, "ok;" ++ dumpS a)
+      | none => (d, "err;" ++ dumpS d.str)
   | ["get", i] =>
-    match getitemString d.str i.toNat! with
-    | some s => (d, "str " ++ s ++ ";" ++ dumpS d.str)
-    | none => (d, "err;" ++ dumpS d.str)
+    match canonicalIndex d.str.idx.length (parseInt i) with       -- getitem_string: canonical_index
+    | .error _ => (d, "err;" ++ dumpS d.str)
+    | .ok k =>
+      match getitemString d.str k with
+      | some s => (d, "str " ++ s ++ ";" ++ dumpS d.str)
+      | none => (d, "err;" ++ dumpS d.str)
   | _ => (d, "bad")
 
 open ImathVerif.BufferProtocol in
@@ -230,6 +236,7 @@ def handleBuf (t : List String) : String :=
   | _ => "bad"
 
 partial def loop (cfg : Cfg) (stdin stdout : IO.FS.Stream) (d : DState) : IO Unit := do
+  stdout.flush
   let line ← stdin.getLine
   if line.isEmpty then return
   let t := (line.trimAscii.toString.splitOn " ").filter (· ≠ "")
